@@ -40,6 +40,11 @@ Section Generic.
   (* grad_np_prod: g ans / x ;  forward: ans sum(v / x) *)
   Definition prod_vjp (l : list K) (ans g : K) : list K := map (fun x => kdiv (kmul g ans) x) l.
   Definition prod_jvp (l v : list K) (ans : K) : K := kmul ans (ksum (kmap2 kdiv v l)).
+  (* np.linalg.norm with ord None / 2 / 'fro' (the square root is supplied by the caller: `ans`):
+     norm_vjp: (g / ans) x ;  norm_jvp: sum(v x) / ans *)
+  Definition sumsq (l : list K) : K := ksum (map (fun x => kmul x x) l).
+  Definition norm_vjp (l : list K) (ans g : K) : list K := map (fun x => kmul (kdiv g ans) x) l.
+  Definition norm_jvp (l v : list K) (ans : K) : K := kdiv (kdot v l) ans.
   (* np.cumsum and grad_np_cumsum: reverse, cumsum, reverse *)
   Fixpoint cumsum_from (acc : K) (l : list K) : list K :=
     match l with [] => [] | x :: r => kadd acc x :: cumsum_from (kadd acc x) r end.
